@@ -81,7 +81,7 @@ type c05Want struct {
 func TestVerifC05(t *testing.T) {
 	run := vlib.Start(t, "C05")
 	defer run.Finish()
-	run.SetRule("case = generated ELF-sections tag (0-12 page-disjoint sections of 1 byte .. 40 pages, aligned or not, all 8 flag combinations, below and above the kernel offset) + 0-6 early reservations of 1-20 pages made through the real EarlyReserveRegion+Map, then the real vmm.Init(offset) on the software MMU, optionally with the frame allocator failing at the k-th request. non-trivial = Init succeeded with >=2 mapped sections of differing W/X flags, >=1 section below the offset and >=1 early reservation; distinct = fingerprint of (offset, sections, reservations)")
+	run.SetRule("case = generated ELF-sections tag (0-12 page-disjoint sections of 1 byte .. 40 pages, aligned or not, all 8 flag combinations, below and above the kernel offset) + 0-6 early reservations of 1-20 pages (one case in 40: one of them 511-1100 pages, spanning whole page tables) made through the real EarlyReserveRegion+Map, then the real vmm.Init(offset) on the software MMU, optionally with the frame allocator failing at the k-th request. non-trivial = Init succeeded with >=2 mapped sections of differing W/X flags, >=1 section below the offset and >=1 early reservation; distinct = fingerprint of (offset, sections, reservations)")
 	run.Assume("sections do not share a page with one another (as the linker script lays them out); section flags beyond W/A/X are zero; privileged instructions stubbed at the seams as in C04")
 	m := vmNewMMU()
 	restore := m.install()
@@ -149,8 +149,17 @@ func TestVerifC05(t *testing.T) {
 		earlyReserveLastUsed = tempMappingAddr
 		nres := r.Range(0, 6)
 		reserved := map[uintptr]uint64{}
+		bigIdx := -1
+		if nres > 0 && r.Chance(1, 40) {
+			bigIdx = r.Intn(nres)
+		}
 		for i := 0; i < nres; i++ {
 			pages := r.Range(1, 20)
+			if i == bigIdx {
+				// a region that spans whole page tables (e.g. allocator bitmaps on a large machine)
+				pages = r.PickInt([]int{511, 512, 513, 600, 1023, 1024, 1100})
+				run.Count("reservations_spanning_a_whole_page_table", 1)
+			}
 			addr, err := EarlyReserveRegion(uintptr(pages) * 4096)
 			if err != nil {
 				c.Violationf("early-reserve-failed", "EarlyReserveRegion: %v", err)
